@@ -510,7 +510,8 @@ func runC18(c *Ctx) {
 			c.check(good, upgrade, "leftover", call.Pos(), "offset = index of the blank line in the received bytes + 4", why+": frames piggy-backed on the response are lost, truncated or preceded by header bytes")
 			// only bytes that were received are parsed and handed on: the buffer is cut to the received count before
 			var readCount ssa.Value
-			eachInstr(upgrade, func(in ssa.Instruction) {
+			reader, readerCall := responseReader(upgrade)
+			eachInstr(reader, func(in ssa.Instruction) {
 				rc, ok := in.(ssa.CallInstruction)
 				if !ok || !rc.Common().IsInvoke() || rc.Common().Method.Name() != "Read" {
 					return
@@ -520,7 +521,7 @@ func runC18(c *Ctx) {
 				}
 			})
 			cut := false
-			for _, a := range storesTo(upgrade, hsBuf) {
+			for _, a := range storesTo(reader, hsBuf) {
 				cs, ok := stripConv(a.Val).(*ssa.Slice)
 				if !ok || !loadOfField(cs.X, hsBuf) || cs.High == nil || readCount == nil {
 					continue
@@ -533,8 +534,21 @@ func runC18(c *Ctx) {
 						}
 					}
 				}
-				if same && dominatesInstr(a.Instr, call.(ssa.Instruction)) {
+				if same && readerCall == nil && dominatesInstr(a.Instr, call.(ssa.Instruction)) {
 					cut = true
+				}
+				// read in a helper: cut before each of its successful returns, and the helper runs before the parse
+				if same && readerCall != nil && dominatesInstr(readerCall, call.(ssa.Instruction)) {
+					cut = true
+					for _, r := range returnsOf(reader) {
+						ei := errorResultIndex(reader.Signature)
+						if ei >= 0 && !isNil(r.Results[ei]) {
+							continue
+						}
+						if !dominatesInstr(a.Instr, r) {
+							cut = false
+						}
+					}
 				}
 			}
 			c.check(cut, upgrade, "received prefix", call.Pos(), "the handshake buffer is cut to the bytes received before it is parsed", "the handshake buffer is parsed / handed to the read buffer at its full length, not cut to the bytes received: stale bytes of an earlier handshake (or zeroes) are decoded as frames")
@@ -548,7 +562,8 @@ func runC18(c *Ctx) {
 	c.rule("C18-R5", "the response is read in a loop whose exit depends on the header terminator", 1)
 	{
 		n := 0
-		eachInstr(upgrade, func(in ssa.Instruction) {
+		reader, _ := responseReader(upgrade)
+		eachInstr(reader, func(in ssa.Instruction) {
 			call, ok := in.(ssa.CallInstruction)
 			if !ok || !call.Common().IsInvoke() || call.Common().Method.Name() != "Read" {
 				return
@@ -561,7 +576,7 @@ func runC18(c *Ctx) {
 			looped := inLoop(in)
 			term := false
 			window := true
-			eachInstr(upgrade, func(x ssa.Instruction) {
+			eachInstr(reader, func(x ssa.Instruction) {
 				ifi, ok := x.(*ssa.If)
 				if !ok || !inLoop(x) {
 					return
@@ -748,4 +763,18 @@ func constSliceLen(v ssa.Value) (int64, bool) {
 		}
 	}
 	return 0, false
+}
+
+// responseReader: the function that reads the upgrade response from the transport: upgrade itself, or the helper it
+// calls that holds the Read (a refactoring split the read loop off); call is the call of that helper in upgrade.
+func responseReader(upgrade *ssa.Function) (fn *ssa.Function, call *ssa.Call) {
+	if len(invokesOf(upgrade, "Read")) > 0 {
+		return upgrade, nil
+	}
+	for _, hc := range allCalls(upgrade) {
+		if h := hc.Call.StaticCallee(); isHelperOf(upgrade, h) && len(invokesOf(h, "Read")) > 0 {
+			return h, hc
+		}
+	}
+	return upgrade, nil
 }
